@@ -31,13 +31,25 @@ SetIndex(f, lab, drop) ==
            keep == IF drop THEN WithoutCols(f, <<lab>>) ELSE SeqRange(NCols(f))
        IN IF ~Unique(ix) THEN Err("init_nonunique")
           ELSE AnyFrame(ix, Take(f.columns, keep), [k \in 1..Len(keep) |-> f.cols[keep[k] + 1].vals], f.name)
-SetIndexHierarchy(f, labs, drop) ==
+(* reorder_for_hierarchy: the rows are first put in tree order - a stable sort on, level by level, the rank of first appearance of   *)
+(* each key label within its level - and EVERY cell travels with its row                                                            *)
+RankInCol(rows, d, x) == Find(Dedupe([i \in 1..Len(rows) |-> rows[i][d]]), x)
+RECURSIVE KeyRankLt(_, _, _, _)
+KeyRankLt(rows, d, a, b) ==
+  IF d > Len(rows[1]) THEN FALSE
+  ELSE LET ra == RankInCol(rows, d, rows[a + 1][d])  rb == RankInCol(rows, d, rows[b + 1][d])
+       IN IF ra # rb THEN ra < rb ELSE KeyRankLt(rows, d + 1, a, b)
+HierOrder(rows) == IF Len(rows) = 0 THEN <<>> ELSE StableArgsort(Len(rows), LAMBDA a, b : KeyRankLt(rows, 1, a, b))
+SetIndexHierarchyR(f, labs, drop, reorder) ==
   IF ~HasCols(f, labs) THEN Err("lookup")
-  ELSE LET rows == [i \in 1..NRows(f) |-> KeyTuple(f, i, labs)]
+  ELSE LET rows0 == [i \in 1..NRows(f) |-> KeyTuple(f, i, labs)]
+           ord == IF reorder THEN HierOrder(rows0) ELSE SeqRange(NRows(f))
+           rows == Take(rows0, ord)
            keep == IF drop THEN WithoutCols(f, labs) ELSE SeqRange(NCols(f))
        IN IF ~Unique(rows) THEN Err("init_nonunique")
           ELSE IF ~TreeOrdered(rows) THEN Err("init")                  \* a hierarchical label set must be a tree in the given order (C02)
-          ELSE AnyFrame([i \in 1..NRows(f) |-> Tup(rows[i])], Take(f.columns, keep), [k \in 1..Len(keep) |-> f.cols[keep[k] + 1].vals], f.name)
+          ELSE AnyFrame([i \in 1..NRows(f) |-> Tup(rows[i])], Take(f.columns, keep), [k \in 1..Len(keep) |-> Take(f.cols[keep[k] + 1].vals, ord)], f.name)
+SetIndexHierarchy(f, labs, drop) == SetIndexHierarchyR(f, labs, drop, FALSE)
 (* unset_index: every index level becomes a leading column labelled by that level's name; the index becomes 0..n-1 *)
 UnsetIndex(f, names) ==
   LET d == Len(names) IN
@@ -155,6 +167,7 @@ JoinResult(L, R, lk, rk, kind, fill, lt, rt, composite) ==
 Apply20(cs) ==
   CASE cs.op = "set_index" -> SetIndex(cs.f, cs.lab, cs.drop)
     [] cs.op = "set_index_hierarchy" -> SetIndexHierarchy(cs.f, cs.labs, cs.drop)
+    [] cs.op = "set_index_hierarchy_reorder" -> SetIndexHierarchyR(cs.f, cs.labs, cs.drop, TRUE)
     [] cs.op = "unset_index" -> UnsetIndex(cs.f, cs.names)
     [] cs.op = "shift_in_rows" -> ShiftInRows(cs.f, cs.lab)
     [] cs.op = "shift_in_cols" -> ShiftInCols(cs.f, cs.lab)
